@@ -1,6 +1,6 @@
 (* Properties_C14.v — the theorems that decide property C14 on the model, each stated in full and closed by
    `exact <lemma>`; the lemmas live in the Proofs_*.v files.  Nothing else belongs in this file. *)
-From Theo Require Import Base Regex Tokens Lexer Errors Scan SpecLex Gen_Lexer LexStatements Proofs_Lexer Proofs_Scan Proofs_LexRules FlexStatements FlexModel Gen_Flex Proofs_Flex.
+From Theo Require Import Base Regex Tokens Lexer Errors Scan SpecLex Gen_Lexer LexStatements Proofs_Lexer Proofs_Scan Proofs_LexRules FlexStatements FlexModel Gen_Flex Proofs_Flex FlexSkelStatements FlexSkel Proofs_FlexSkel.
 Local Open Scope nat_scope.
 
 
@@ -107,3 +107,19 @@ Theorem C14_flex_next_token :
   forall fuel s line, bytes_ok s -> flex_next_token fuel flex_tables flex_actions s line = Some (next_token fuel rules s line).
 Proof. exact C14_flex_next_token_proof. Qed.
 Print Assumptions C14_flex_next_token.
+
+Theorem C14_skeleton :
+  forall text pos line, bytes_ok text -> (0 <= pos <= zlen text)%Z ->
+    let s := suffix_at text pos in
+    yylex flex_tables flex_actions text (S (length s)) pos line =
+    lex_expect text (flex_next_token (S (length s)) flex_tables flex_actions s line).
+Proof. exact C14_skeleton_proof. Qed.
+Print Assumptions C14_skeleton.
+
+Theorem C14_yylex_is_next_token :
+  forall text pos line, bytes_ok text -> (0 <= pos <= zlen text)%Z ->
+    let s := suffix_at text pos in
+    yylex flex_tables flex_actions text (S (length s)) pos line =
+    lex_expect text (Some (next_token (S (length s)) rules s line)).
+Proof. exact C14_yylex_is_next_token_proof. Qed.
+Print Assumptions C14_yylex_is_next_token.
